@@ -103,11 +103,23 @@ def leaf_requests(ctx):
     for b0 in range(256):
         for _ in range(2 if not ctx.thorough else 24):
             reqs.append(("dec", (b0, rng.randrange(256), rng.choice([0x80, 0xBF, rng.randrange(256)]), rng.randrange(256))))
+    # the string ends after `size` (1..3) of the four bytes: every lead byte x every size, the bytes behind the end
+    # of the string being continuation bytes (what a decoder trusting the lead byte would happily read) or random
+    for b0 in range(256):
+        for size in (1, 2, 3):
+            for _ in range(1 if not ctx.thorough else 6):
+                reqs.append(("dect", (b0, rng.choice([0x80, 0xBF, 0x82, rng.randrange(256)]), rng.choice([0x80, 0xBF, 0xAC, rng.randrange(256)]),
+                                      rng.choice([0x80, 0xBF, rng.randrange(256)]), size)))
+    for c in BOUNDARY:
+        if is_scalar(c):
+            e = utf8([c])
+            for size in range(1, len(e) + 1):
+                reqs.append(("dect", tuple(e + [rng.choice([0x80, 0xBF, rng.randrange(256)]) for _ in range(4 - len(e))]) + (size,)))
     return reqs
 
 
 def leaf_line(r):
-    if r[0] == "dec":
+    if r[0] in ("dec", "dect"):
         return "leaf dec " + " ".join("%x" % b for b in r[1])
     return "leaf %s %x" % (r[0], r[1])
 
@@ -125,8 +137,14 @@ def leaf_oracle(r):
         return "%x" % width(a) if is_scalar(a) else None
     if k == "enc":
         return hx(utf8([a])) if is_scalar(a) else None
-    if k == "dec":
-        for n in (1, 2, 3, 4):
+    if k == "dect":
+        b0, size = a[0], a[4]
+        announced = 1 if b0 < 0xC0 or b0 > 0xF7 else 2 if b0 < 0xE0 else 3 if b0 < 0xF0 else 4
+        if announced > size:
+            return "ERR utf8"          # a lead byte cut off by the end of the string is never a character
+        a = a[:size]
+    if k in ("dec", "dect"):
+        for n in range(1, len(a) + 1):
             try:
                 s = bytes(a[:n]).decode("utf-8")
                 if len(s) == 1:
@@ -164,6 +182,8 @@ def leaf_class(r):
     k, a = r
     if k == "dec":
         return "lead-%x" % (a[0] >> 4)
+    if k == "dect":
+        return "lead-%x:size-%d" % (a[0] >> 4, a[4])
     if k == "ibc":
         return "byte-%x" % (a >> 4)
     return "width-%d" % width(a) if is_scalar(a) else "non-scalar"
@@ -225,6 +245,7 @@ def inner_cases(ctx, n):
                             cs, i = a + [old] + b, len(a)
                         st, off, size = store_of(cs, shared)
                         cases.append(("set", st, off, size, cs, (cow, i, new)))
+    cases += truncated_cases(rng)
     # string-concatenate with a separator: every separator width class, empty, #f, mixed x 0/1/2/many strings
     def join_case(seps, strs, shared=None):
         sep = None
@@ -281,8 +302,42 @@ def inner_cases(ctx, n):
     return cases
 
 
+def truncated_cases(rng):
+    """strings whose last bytes are a lead byte cut off by the end of the string (what utf8->string of bytes ending in
+    #xF0 or #xE2 #x82 builds): every width w = 2,3,4 x every cut k = 1..w-1 x own / shared store (the bytes behind the end
+    of the string then look like the missing continuation bytes) x 0 / some characters before;
+    tref: string-ref at the cut-off position (must raise) and before it; tset: string-set! there with every new width x cow"""
+    out = []
+    for w in (2, 3, 4):
+        for k in range(1, w):
+            for shared in (False, True):
+                for before in (0, 1, 3):
+                    x = rng.choice(BY_WIDTH[w])
+                    cs = [rand_cp(rng) for _ in range(before)]
+                    cut = utf8([x])[:k]
+                    if shared:
+                        pre = [rng.randrange(256) for _ in range(rng.choice([1, 2, 5]))]
+                        post = rng.choice([utf8([x])[k:] + [rng.randrange(1, 256)], [0x80, 0xBF, 0x80, 0x41], [rng.randrange(1, 256)]])
+                    else:
+                        pre, post = [], [0]
+                    b = utf8(cs) + cut
+                    st, off, size = pre + b + post, len(pre), len(b)
+                    L = len(cs)
+                    out.append(("tref", st, off, size, cs, (L, w, k)))
+                    if L:
+                        out.append(("tref", st, off, size, cs, (L - 1, w, k)))
+                    for w2 in (1, 2, 3, 4):
+                        for cow in (0, 1):
+                            out.append(("tset", st, off, size, cs, (cow, L, rng.choice(BY_WIDTH[w2]), w, k)))
+    return out
+
+
 def inner_line(c):
     op, st, off, size, cs, a = c
+    if op == "tref":
+        return "ref %s %x %x %s" % (hx(st), off, size, zhex(a[0]))
+    if op == "tset":
+        return "set %s %x %x %d %s %x" % (hx(st), off, size, a[0], zhex(a[1]), a[2])
     head = "%s %s %x %x" % (op, hx(st), off, size)
     if op == "len":
         return head
@@ -328,6 +383,25 @@ def inner_judge(c, out):
         if op == "ref":
             exp = "OK %x" % cs[a[0]] if 0 <= a[0] < L else "ERR range"
             return out == exp, exp
+        if op == "tref":
+            exp = "OK %x" % cs[a[0]] if 0 <= a[0] < L else "ERR utf8"
+            return out == exp, exp
+        if op == "tset":
+            cow, i, ch, w, k = a
+            eb = utf8(cs + [ch])
+            exp = "string bytes %s, size %x (the %d cut-off bytes replaced), a terminator slot, old store untouched when replaced" % (hx(eb), len(eb), k)
+            if f[0] != "OK":
+                return False, exp
+            fresh, noff, nsize = int(f[1]), int(f[2], 16), int(f[3], 16)
+            s0, s1 = unhx(f[4]), unhx(f[5])
+            cur = s1 if fresh else s0
+            ok = nsize == len(eb) and cur[noff:noff + nsize] == eb and len(cur) > noff + nsize
+            if fresh:
+                ok = ok and s0 == st
+            else:
+                p = off + len(utf8(cs))
+                ok = ok and not cow and width(ch) == k and s0[:p] == st[:p] and s0[p + k:] == st[p + k:]
+            return ok, exp
         if op == "next":
             k = [len(utf8(cs[:j])) for j in range(L + 1)].index(a[0])
             exp = "OK %x" % len(utf8(cs[:k + 1]))
@@ -389,6 +463,10 @@ def inner_sig(c):
         ws = sorted(set(width(c) for c in sep[3])) if sep else []
         return "string-join:sep-%s:%s" % ("none" if sep is None else ("empty" if not ws else "w" + "".join(map(str, ws))),
                                           "n%d" % min(len(parts), 3))
+    if op == "tref":
+        return "string-ref:%s:w%d-k%d:%s" % ("truncated-lead" if a[0] == len(cs) else "before-truncated-lead", a[1], a[2], "offset" if off else "own")
+    if op == "tset":
+        return "string-set!:truncated-lead:w%d-k%d->w%d:%s%s" % (a[3], a[4], width(a[2]), "offset" if off else "own", ":cow" if a[0] else "")
     if op == "set" and 0 <= a[1] < len(cs):
         return "string-set!:w%d->w%d:%s%s" % (width(cs[a[1]]), width(a[2]), "offset" if off else "own", ":cow" if a[0] else "")
     return "prim:%s:%s" % (op, "offset" if off else "own")
@@ -403,7 +481,7 @@ def check_inner(ctx, exe, emb, d, n):
         return
     nb = 0
     for c, l, m, i in zip(cases, lines, mo, io):
-        nontriv = any(x >= 0x80 for x in c[4]) or (c[0] in ("set", "mk") and c[5][-1] >= 0x80) or \
+        nontriv = any(x >= 0x80 for x in c[4]) or (c[0] in ("set", "mk") and c[5][-1] >= 0x80) or c[0] in ("tref", "tset") or \
             (c[0] == "join" and any(x >= 0x80 for q in ([c[5][0]] if c[5][0] else []) + c[5][1] for x in q[3]))
         ctx.count(1, key=l, nontrivial=nontriv)
         ctx.cov["traces_validated_against_impl"] += 1
@@ -419,6 +497,48 @@ def check_inner(ctx, exe, emb, d, n):
     for k in (0, 300):
         if k < len(lines):
             ctx.sample(dict(kind="inner", request=lines[k], model=mo[k], impl=io[k]))
+
+
+def check_truncated_impl_only(ctx, emb, d):
+    cases = truncated_cases(ctx.rng)
+    lines = [inner_line(c) for c in cases]
+    io = run_embed(ctx, emb, d, lines)
+    if io is None:
+        return
+    for c, l, i in zip(cases, lines, io):
+        ctx.count(1, key=l, nontrivial=True)
+        ok, exp = inner_judge(c, i)
+        if ok is False:
+            ctx.violation(inner_sig(c), input=l, code_points=hx(c[4]), expected=exp, observed=i,
+                          replay="echo '%s' | LD_LIBRARY_PATH=%s %s" % (l, d, emb))
+
+
+def check_truncated_outer(ctx, d):
+    """the same strings through the Scheme API: (utf8->string #u8(... lead byte cut off)) ; string-ref at the cut-off position
+    must raise, string-set! there gives the characters before the cut followed by the new character (SPEC only, no model)"""
+    rng = ctx.rng
+    cases, exprs = [], []
+    for w in (2, 3, 4):
+        for k in range(1, w):
+            for before in (0, 2):
+                for w2 in (1, 2, 3, 4):
+                    cs = [rand_cp(rng) for _ in range(before)]
+                    cs = [c if c != 0 else 0x41 for c in cs]
+                    x, ch = rng.choice(BY_WIDTH[w]), rng.choice(BY_WIDTH[w2])
+                    b = utf8(cs) + utf8([x])[:k]
+                    L = len(cs)
+                    e = ("(let* ((s (utf8->string (bytevector %s))) (r (guard (e (#t 'E)) (char->integer (string-ref s %d))))) "
+                         "(string-set! s %d (integer->char %d)) (list r (string->utf8 s) (map char->integer (string->list s)) (string-length s)))"
+                         % (" ".join(map(str, b)), L, L, ch))
+                    new = cs + [ch]
+                    exp = "(E #u8(%s) (%s) %d)" % (" ".join("#x%02X" % y for y in utf8(new)), " ".join(map(str, new)), len(new))
+                    cases.append((w, k, w2, exp)); exprs.append(e)
+    res = scm.run_cases(d, exprs, imports=IMPORTS, timeout=120)
+    for (w, k, w2, exp), e, o in zip(cases, exprs, res):
+        ctx.count(1, key=e, nontrivial=True)
+        ctx.cov["traces_validated_against_impl"] += 1
+        if o is None or " ".join(o.upper().split()) != " ".join(exp.upper().split()):
+            ctx.violation("outer:truncated-lead:w%d-k%d->w%d" % (w, k, w2), input=e, expected=exp, observed=o, replay=e)
 
 
 # ------------------------------------------------------------------------------------------ (K-outer)
@@ -1724,7 +1844,8 @@ def run(ctx):
         "leaves: every byte 0..255, every boundary scalar (+ all 1 112 064 scalars in thorough) through the translated and the real C "
         "function, judged by the standard UTF-8 definition; inner: (store, offset, size) triples holding scalar lists at offset 0 or inside a "
         "shared store with garbage around, every old width x new width x position x own/shared x copy-on-write for string-set!, index "
-        "boundaries -1/0/len-1/len/len+1 for index->cursor, ref, substring; outer: operation histories (<= 40 steps) over strings mixing "
+        "boundaries -1/0/len-1/len/len+1 for index->cursor, ref, substring, plus strings whose last bytes are a lead byte cut off by the end "
+        "of the string (every width x cut x own/shared store: string-ref there must raise, string-set! there replaces exactly the bytes left); outer: operation histories (<= 40 steps) over strings mixing "
         "1/2/3/4-byte scalars created by list->string, string, utf8->string, utf8->string! (shared, offset != 0), string ports, literals, with "
         "string-set!/substring/append/copy/make-string/fill!/copy! (aliased)/ports/cursors/comparisons, observed after every step as "
         "(string->list, string->utf8, string-length); optional range arguments: every combination {start omitted, 0, 1, middle, len} x {end "
@@ -1740,9 +1861,13 @@ def run(ctx):
     c12_casefold.regen(ctx, d)          # coq/Gen/C12_CaseFold.v: char-foldcase-map and special-cases of lib/scheme/char/*.scm
     ctx.coq_obligations("Properties_C12")
     exe = ctx.extract("C12")
-    if exe is None:
-        return
     emb = B.cc_embed(d, os.path.join(HARNESS, "embed_c12.c"), os.path.join(d, "embed_c12"))
+    if exe is None:
+        # no model to compare with (e.g. the translator failed closed on a changed leaf function): still look for a concrete
+        # failing input of the implementation, judged by the SPEC alone, on the strings ending in a cut-off lead byte
+        check_truncated_impl_only(ctx, emb, d)
+        check_truncated_outer(ctx, d)
+        return
     import time as _t
     _t0 = [_t.time()]
 
@@ -1755,6 +1880,7 @@ def run(ctx):
     check_leaves(ctx, exe, emb, d)
     lap("leaves")
     check_inner(ctx, exe, emb, d, 2500 if not ctx.thorough else 120000)
+    check_truncated_outer(ctx, d)
     lap("inner")
     check_outer(ctx, exe, d, 400 if not ctx.thorough else 25000, 800 if not ctx.thorough else 65000, 200 if not ctx.thorough else 10000)
     lap("outer")
